@@ -510,7 +510,10 @@ def gen_map_rich_pkg(rng, force=None):
         # other types of the run embed a struct of their own with an untagged field of that name (no extra draw: `r` decides)
         nested = (k == 0) if force.get("tagshared") else (0.35 <= r < 0.5 and "embed" in feats)
         if force.get("tagshared") and k in (0, n - 1):
-            feats.add("embed")
+            feats.update(("embed", "ptrembed"))
+        # a destination field behind pointer embeds (XPtr.XDeep.Score) that THIS type never writes while the other types write a
+        # field of that name: the read / write maps of the nil checks (which paths to allocate before writing) belong to one type
+        unwritten = (k == n - 1) if force.get("tagshared") else (r >= 0.75)
         allfeats.update(f for f in feats if f.endswith("shared-name"))
         if "func" in feats:
             src_first = ["\tConv"]
@@ -537,7 +540,9 @@ def gen_map_rich_pkg(rng, force=None):
         if "ptrembed" in feats:
             src.append("type %sPtr struct {\n\tKind int\n}\n" % nm)
             dst.append("type %sPtr struct {\n\tKind int\n\t*%sDeep\n}\n\ntype %sDeep struct {\n\tScore int\n}\n" % (nm, nm, nm))
-            sf += ["\t*%sPtr" % nm, "\tScore int"]
+            sf += ["\t*%sPtr" % nm] + ([] if unwritten else ["\tScore int"])
+            if unwritten:
+                allfeats.add("ptr-path-unwritten")
             df.append("\t*%sPtr" % nm)
             all_types.append(nm + "Ptr")
         src.append("type %s struct {\n%s\n}\n" % (nm, "\n".join(src_first + sf)))
